@@ -77,7 +77,9 @@ let svs_str (v : Model.svec) = String.concat "" (List.map (fun (i, x) -> string_
 let eps = q_of_tok "2028240960365167/20282409603651670423947251286016"
 
 (* ---------------------------------------------------------------- vectors: register machine *)
-let vec_machine () : machine =
+let vec_machine (rational : bool) : machine =
+  (* SSVectorBase<Rational>::assign(SVectorBase<Rational>) is specialised: it tests v == 0 instead of |v| <= epsilon *)
+  let eps_assign = if rational then qzero else eps in
   let d = Array.make 2 [] and sv = Array.make 2 [] and x = Array.make 2 (Model.ss_new Model.O) in
   let dump () =
     let b = Buffer.create 256 in
@@ -197,7 +199,7 @@ let vec_machine () : machine =
            x.(r) <- (match c with
                | "xaddsv" -> Model.ss_add_sv eps sv.(s) x.(r)
                | "xsubsv" -> Model.ss_sub_sv eps sv.(s) x.(r)
-               | "xsetsv" -> Model.ss_set_sv eps sv.(s) x.(r)
+               | "xsetsv" -> Model.ss_set_sv eps_assign sv.(s) x.(r)
                | _ -> Model.ss_multadd_sv eps (q_of_tok (a 2)) sv.(s) x.(r)))
      | "xaddss" | "xsubss" | "xdot" | "xassign" ->
        let r = reg (a 1) and y = reg (a 2) in
@@ -453,7 +455,8 @@ let make kind : machine option =
   match kind with
   | "ds" | "cs" -> Some (set_machine false)
   | "csp" -> Some (set_machine true)
-  | "vecd" | "vecr" -> Some (vec_machine ())
+  | "vecd" -> Some (vec_machine false)
+  | "vecr" -> Some (vec_machine true)
   | "svs" -> Some (vset_machine 0)
   | "lprs" | "lpcs" -> Some (vset_machine 3)
   | "idx" -> Some (idx_machine false)
